@@ -839,7 +839,7 @@ class CircuitTemplate(AbstractBaseTemplate):
         # ordinary edge, e.g. from an extrinsic input node, may address a population variable)
         pop_nodes, pop_edges = {}, []
         if self.populations or self.connections:
-            pop_nodes, pop_edges = self._apply_populations_and_connections()
+            pop_nodes, pop_edges = self._apply_populations_and_connections(values)
 
         # group edges that should be vectorized
         old_edges = self.collect_edges(delay_info=True)
@@ -1301,7 +1301,7 @@ class CircuitTemplate(AbstractBaseTemplate):
         except KeyError:
             return idx
 
-    def _apply_populations_and_connections(self) -> tuple:
+    def _apply_populations_and_connections(self, values: dict = None) -> tuple:
         """Translate ``PopulationTemplate`` and ``Connectivity`` objects into IR nodes and edges.
 
         For each population a single ``VectorizedNodeIR`` of length *n* is created directly,
@@ -1320,7 +1320,8 @@ class CircuitTemplate(AbstractBaseTemplate):
         edges = []
 
         for pop_name, pop in self.populations.items():
-            vec_node, label_map, var_ranges = pop.apply(label=pop_name)
+            # (node-level values addressed to the population - `node_values` of apply / run - take precedence over its params)
+            vec_node, label_map, var_ranges = pop.apply(label=pop_name, values=(values or {}).get(pop_name))
             nodes[vec_node.label] = vec_node
 
             # register indices so existing-edge machinery can still find these vars
